@@ -291,7 +291,7 @@ def execute(cases_, tier, seed):
                                                                                       "{on}" if tier == "quick" else "{off,on}")
     res.assumptions = ["invalid defaults of native types (uuid, date) are not demanded to fail (validation documented as deferred)",
                        "an absent member after serialisation stands for null / [] / {} (skip_serializing_if)"]
-    if len(cases_) > 20 and n_real < 40:
+    if not res.violations and (len(cases_) > 20 and n_real < 40):   # a subject that breaks everything is reported through its violations, not as vacuity
         raise MachineryError("vacuity guard: only %d realised defaults" % n_real)
     return res
 
